@@ -401,11 +401,11 @@ func apiReq(id int, method, path, body string) *ReqSpec {
 }
 
 type c12Conf struct {
-	tree     *cnode // nil for invalid bodies
-	body     string
-	invalid  string // kind of invalidity, "" if valid
-	item     *ClientItem
-	idx      int
+	tree    *cnode // nil for invalid bodies
+	body    string
+	invalid string // kind of invalidity, "" if valid
+	item    *ClientItem
+	idx     int
 }
 
 type c12Ex struct {
